@@ -40,6 +40,14 @@ CHECKS.update({
   "DESIGN.md 4 C10"),
 })
 
+CHECKS.update({
+ "C05": ("model_checking", "approvex/linux",
+  "explicit-state exploration: all pairs of route sets and of netfilter rulesets (both spellings), real planner as transition, independent kernel model (ip route add/del, iptables-restore/-save semantics) executes the script; oracle = exact route/ruleset equality + silent round trip in kernel spelling + single-value mutations must be reported",
+  "All pairs of route subsets, all pairs of FORWARD chains over a rule alphabet that covers every normalisation rule of the statement (device in Netspoc and in iptables-save spelling), all pairs of table/chain/policy structures and the linux corpus product; the route commands run one by one on the kernel model, the restore file is loaded with iptables-restore semantics. Exhaustive inside the alphabets.",
+  "Kernel model is lenient for several next hops to one destination (see DESIGN 3.2); scp of the startup files is outside (short-circuited by the tool under simulation).",
+  "DESIGN.md 4 C05"),
+})
+
 NOT_YET = "check not built yet in this round (design in DESIGN.md section 4); no technique switch intended"
 
 def main():
